@@ -19,7 +19,7 @@
 //	module scratch
 //	go 1.16
 //	require github.com/blues/jsonata-go v0.0.0
-//	replace github.com/blues/jsonata-go => /repo
+//	replace github.com/blues/jsonata-go => /repo        (or a worktree of it)
 //	EOF
 //	cp /verif/harness/vectors/numbers/main.go gen/main.go
 //	go build -o gen/gen ./gen && ./gen/gen -out /tmp/numbers/out
@@ -402,7 +402,7 @@ Definition check_sqrt (c : Z * bool * Z) : bool :=
   let '(x, ok, e) := c in same_lf (go_sqrt (fb x)) ok e.
 
 (* op: 0 floor 1 ceil 2 abs 3 modf.int 4 modf.frac 5 nextafter(+inf) 6 nextafter(-inf)
-       7 trunc 8 mod 2 9 x*10 10 x/10 *)
+       7 trunc 8 mod 2 9 x*10 10 x/10 11 math.Round *)
 Definition check_misc (c : Z * Z * Z) : bool :=
   let '(op, x, e) := c in
   let x := fb x in
@@ -410,7 +410,7 @@ Definition check_misc (c : Z * Z * Z) : bool :=
           else if op =? 3 then fst (modf x) else if op =? 4 then snd (modf x)
           else if op =? 5 then nextafter x f_inf else if op =? 6 then nextafter x f_ninf
           else if op =? 7 then ftrunc x else if op =? 8 then fmod x f_two
-          else if op =? 9 then fmul x f_ten else fdiv x f_ten) e.
+          else if op =? 9 then fmul x f_ten else if op =? 10 then fdiv x f_ten else fround x) e.
 
 (* (n, math.Pow10(n), math.Pow(10, n)) *)
 Definition check_pow10 (c : Z * Z * Z) : bool :=
@@ -803,7 +803,7 @@ func main() {
 		for _, x := range xs {
 			i, f := math.Modf(x)
 			for op, v := range []float64{math.Floor(x), math.Ceil(x), math.Abs(x), i, f,
-				math.Nextafter(x, math.Inf(1)), math.Nextafter(x, math.Inf(-1)), math.Trunc(x), math.Mod(x, 2), x * 10, x / 10} {
+				math.Nextafter(x, math.Inf(1)), math.Nextafter(x, math.Inf(-1)), math.Trunc(x), math.Mod(x, 2), x * 10, x / 10, math.Round(x)} {
 				lines = append(lines, fmt.Sprintf("(%d, %s, %s)", op, fb(x), fb(v)))
 			}
 		}
